@@ -427,14 +427,34 @@ Fixpoint crossing (row1 row2 : list (Z * Q)) (cond : bool) (prev_epochs : list Z
       end
   end.
 
+(* str(a) <= str(b) for the decimal numerals of integers (python string comparison) *)
+Fixpoint digits_aux (fuel : nat) (n : Z) (acc : list Z) : list Z :=
+  match fuel with
+  | O => acc
+  | S f => if (n <? 10)%Z then n :: acc else digits_aux f (n / 10)%Z ((n mod 10)%Z :: acc)
+  end.
+Definition digits (n : Z) : list Z := digits_aux (S (Z.to_nat (Z.log2 n))) n [].
+Fixpoint lex_leb (a b : list Z) : bool :=
+  match a, b with
+  | [], _ => true
+  | _ :: _, [] => false
+  | x :: a', y :: b' => if (x <? y)%Z then true else if (y <? x)%Z then false else lex_leb a' b'
+  end.
+Definition str_leb (a b : Z) : bool :=
+  match (a <? 0)%Z, (b <? 0)%Z with
+  | true, false => true                 (* "-..." < digit *)
+  | false, true => false
+  | _, _ => lex_leb (digits (Z.abs a)) (digits (Z.abs b))
+  end.
+
 Fixpoint eps_pairs (h : hist) (epoch : Z) (ps : list (Z * Z)) (seen : list (Z * Z)) (acc : list Q)
   : result (list (Z * Z) * list Q) :=
   match ps with
   | [] => Ok (seen, acc)
   | (a, b) :: rest =>
-      (* c1, c2 = sorted(pair): the pair is identified independently of the iteration order (the code sorts
-         the id strings; every use below is symmetric in c1, c2, so any fixed total order does) *)
-      let c1 := Z.min a b in let c2 := Z.max a b in
+      (* c1, c2 = sorted(pair): trial ids are strings there, so this is the lexicographic order of the
+         decimal numerals ("10" < "2"); the orientation matters when metric values tie *)
+      let c1 := if str_leb a b then a else b in let c2 := if str_leb a b then b else a in
       if mem_pair (c1, c2) seen then eps_pairs h epoch rest seen acc else
       match lookup c1 (h_results h), lookup c2 (h_results h) with
       | Some row1, Some row2 =>
